@@ -1341,6 +1341,15 @@ def rewrite_case(draw, max_bodies=5, only=None, noncumulative=False, replicate=N
   nk = draw(st.sampled_from([1, 1, 1, 2, 2, 3, 4]))
   # the seed rotates the choice so that Hypothesis' preference for small integers does not favour the first kinds
   kinds = sorted(set(avail[(draw(st.integers(0, len(avail) - 1)) + seed) % len(avail)] for _ in range(nk)))
+  extra_stats = []
+  if 'fuse' in kinds:
+    # known finding 'fusestatic-xbody-sensor-rejected': a static body referenced only through a sensor with
+    # objtype="xbody" is fused anyway and the model then fails to compile (dedicated probe in the check)
+    static = set(b['name'] for b in collect(model, 'body') if not any(it['k'] == 'joint' for it in b['items']))
+    if any(sn['objtype'] == 'xbody' and sn['obj'] in static for sn in model['sensors']):
+      kinds.remove('fuse')
+      kinds = kinds or ['order']
+      extra_stats.append('fuse:excluded-xbody-sensor-on-static-body(known-finding)')
   if 'attach' in kinds and 'fuse' in kinds and model['attach']['suffix']:
     kinds.remove('fuse')          # a suffix needs the API route, which is excluded together with fuse (see make_attach)
   plain = Renderer(None).render(model)
@@ -1352,7 +1361,7 @@ def rewrite_case(draw, max_bodies=5, only=None, noncumulative=False, replicate=N
     case['skip'] = str(e)
     return case
   case['child'] = rw.child
-  case['stats'] = sorted(rw.stats)
+  case['stats'] = sorted(rw.stats) + extra_stats
   if rw.rep_euler:
     case['alt'] = Renderer(None, rep_mode='impl', rep_euler=rw.rep_euler).render(model)
   case['nrep'] = len(collect(model, 'replicate'))
